@@ -252,7 +252,96 @@ def frame(rep, pid: str) -> int:
     return n
 
 
+def _impure_writes(fn: ast.AST) -> List[str]:
+    """writes of a closure to anything but its own locals (captured variables, globals)"""
+    params = {a.arg for a in fn.args.args} | ({fn.args.vararg.arg} if fn.args.vararg else set())
+    body = fn.body if isinstance(fn.body, list) else [fn.body]
+    local = set(params)
+    for st in body:
+        for n in ast.walk(st):
+            if isinstance(n, ast.Name) and isinstance(n.ctx, ast.Store):
+                local.add(n.id)
+            elif isinstance(n, (ast.comprehension,)):
+                for t in ast.walk(n.target):
+                    if isinstance(t, ast.Name):
+                        local.add(t.id)
+    bad: List[str] = []
+
+    def base(e):
+        while isinstance(e, (ast.Attribute, ast.Subscript)):
+            e = e.value
+        return e.id if isinstance(e, ast.Name) else None
+    for st in body:
+        for n in ast.walk(st):
+            if isinstance(n, (ast.Nonlocal, ast.Global)):
+                bad.append(f"L{n.lineno}: {'nonlocal' if isinstance(n, ast.Nonlocal) else 'global'} {', '.join(n.names)}")
+                local -= set(n.names)
+    for st in body:
+        for n in ast.walk(st):
+            if isinstance(n, ast.Call) and isinstance(n.func, ast.Attribute) and n.func.attr in MUTATORS:
+                b = base(n.func.value)
+                if b is not None and b not in local:
+                    bad.append(f"L{n.lineno}: mutating call {ast.unparse(n.func)}(...) on captured `{b}`")
+            elif isinstance(n, (ast.Attribute, ast.Subscript)) and isinstance(n.ctx, (ast.Store, ast.Del)):
+                b = base(n)
+                if b is not None and b not in local:
+                    bad.append(f"L{n.lineno}: store to {ast.unparse(n)} (captured `{b}`)")
+            elif isinstance(n, ast.Name) and isinstance(n.ctx, ast.Store) and n.id not in local:
+                bad.append(f"L{n.lineno}: assignment to non-local `{n.id}`")
+    return bad
+
+
+def pure_constructors(rep, pid: str) -> int:
+    """C05/C02: the constructor handed to construct_result computes ISLa's value of a ground operator application
+    from the argument values; it is re-used for every instantiation of the atom (closure + lru_cache on
+    evaluate_z3_expression), so it must assign nothing but its own locals -- otherwise the value depends on the
+    history of earlier evaluations."""
+    if pid not in ("C05", "C02"):
+        return 0
+    relpath = "isla/z3_helpers.py"
+    try:
+        src, mod = extract.load_module(relpath)
+    except (OSError, SyntaxError) as exc:
+        rep.checker_error(f"pure-constructor: cannot read {relpath}: {exc}")
+        return 0
+    n = 0
+    for fn in mod.body:
+        if not (isinstance(fn, ast.FunctionDef) and fn.name.startswith("evaluate_z3_")):
+            continue
+        nested = {x.name: x for x in ast.walk(fn) if isinstance(x, ast.FunctionDef) and x is not fn}
+        for call in ast.walk(fn):
+            if not (isinstance(call, ast.Call) and isinstance(call.func, ast.Name) and call.func.id == "construct_result"
+                    and call.args):
+                continue
+            ctor = call.args[0]
+            target = None
+            if isinstance(ctor, ast.Lambda):
+                target = ctor
+            elif isinstance(ctor, ast.Name) and ctor.id in nested:
+                target = nested[ctor.id]
+            elif isinstance(ctor, ast.Name):
+                continue            # a builtin / module-level function (sum, prod): no captured state
+            if target is None:
+                rep.assume(f"pure-constructor {relpath}:{call.lineno}: constructor `{ast.unparse(ctor)[:40]}` not resolved; not checked")
+                continue
+            bad = _impure_writes(target)
+            n += 1
+            name = f"frame:constructor-assigns-nothing@{fn.name}"
+            rep.obligation(name, "frame", f"{relpath}::{fn.name}", "proved" if not bad else "refuted", "ast", 0.0,
+                           "the constructor handed to construct_result writes only its own locals")
+            if bad:
+                rep.violation(f"frame:{fn.name}:constructor-is-stateful",
+                              f"{relpath}::{fn.name}: the constructor passed to construct_result keeps state across calls "
+                              f"({'; '.join(bad)}); it is re-used for every instantiation of the atom, so the value "
+                              "returned depends on earlier evaluations",
+                              dict(obligation=name, kind="frame", function=f"{relpath}::{fn.name}", writes=bad,
+                                   verifier_output="; ".join(bad)), no_failing_input=True)
+    if n == 0:
+        rep.checker_error("pure-constructor: no construct_result(...) call found in isla/z3_helpers.py (pattern changed?)")
+    return n
+
+
 def run(rep, pid: str):
-    n = callshape(rep, pid) + frame(rep, pid)
+    n = callshape(rep, pid) + frame(rep, pid) + pure_constructors(rep, pid)
     rep.section("syntactic", obligations=n)
     return n
